@@ -89,3 +89,24 @@ Proof.
     exists (S k), a. split; [exact Hk|]. split; [exact Hs|]. split; [|reflexivity].
     intros j b Hj Hn. destruct j; cbn in Hn; [inversion Hn; subst; auto|]. eapply Hb; [|exact Hn]. lia.
 Qed.
+
+(* the fetch window: every fetched byte is a byte of the ONE area that owns the address - which is
+   executable - starting at the address and ending after 15 bytes or with that area's data, whichever
+   comes first.  Nothing of a neighbouring area, whatever its permissions, is ever part of a fetched
+   instruction. *)
+Theorem fetch_window a s l s' :
+  mem_read_executable_bytes a s = (Ok l, s') ->
+  exists ar, owner (mem s) a = Some ar /\ Z.land (a_access ar) PROT_EXEC <> 0 /\
+             l = slice (a_data ar) (a - a_start ar) (Z.min 15 (zlen (a_data ar) - (a - a_start ar))) /\
+             zlen l <= 15.
+Proof.
+  unfold mem_read_executable_bytes, owner. destruct (find_area (mem s) a) as [ar|]; [|discriminate].
+  destruct (Z.eqb_spec (Z.land (a_access ar) PROT_EXEC) 0); [discriminate|].
+  cbv zeta.
+  destruct (Z.leb_spec (a - a_start ar) (Z.min (a - a_start ar + 15) (zlen (a_data ar)))) as [Hle|Hgt]; [|discriminate].
+  intros H. injection H as <- _. exists ar. split; [reflexivity|]. split; [assumption|].
+  replace (Z.min (a - a_start ar + 15) (zlen (a_data ar)) - (a - a_start ar))
+    with (Z.min 15 (zlen (a_data ar) - (a - a_start ar))) by lia.
+  split; [reflexivity|].
+  unfold slice, zlen. rewrite firstn_length. lia.
+Qed.
